@@ -106,6 +106,15 @@ func verifRefScan(src []rune, pos int, expSym, expMeta bool) verifRefTok {
 		}
 		symRune := func(r rune) bool { return !verifIn("/[_;=", r) && !unicode.IsSpace(r) }
 		if expSym {
+			// comments (and the spaces after them) are ignored between `_` and the symbol
+			for pos < n && src[pos] == ';' {
+				for pos < n && src[pos] != '\n' {
+					pos++
+				}
+				for pos < n && unicode.IsSpace(src[pos]) {
+					pos++
+				}
+			}
 			if pos < n && symRune(src[pos]) {
 				st := pos
 				for pos < n && symRune(src[pos]) {
